@@ -1,11 +1,14 @@
 #!/bin/bash
 # runs every registered check (quick by default) on the current tree, prints rc and wall time per property
+# (works from whatever copy of /verif it is started in: `vp run` snapshots included)
 TIER=${1:-quick}
-cd /verif
-for id in $(python3 -c "import json; print(' '.join(c['property_id'] for c in json.load(open('MANIFEST.json'))['checks']))"); do
+cd "$(dirname "$0")/.." || exit 2
+OUT=${RUN_ALL_OUT:-/tmp/run_all_$TIER}
+mkdir -p $OUT
+for id in ${RUN_ALL_IDS:-$(python3 -c "import json; print(' '.join(c['property_id'] for c in json.load(open('MANIFEST.json'))['checks']))")}; do
   s=$(date +%s.%N)
-  ./check $id --tier $TIER > /tmp/run_all_$id.out 2>&1
+  ./check $id --tier $TIER > $OUT/$id.out 2>&1
   rc=$?
   e=$(date +%s.%N)
-  printf "%s rc=%d %.0fs %s\n" $id $rc $(echo "$e - $s" | bc) "$(grep -c VIOLATION /tmp/run_all_$id.out) viol, $(grep -c KNOWN-FINDING /tmp/run_all_$id.out) known"
+  printf "%s rc=%d %.0fs %s\n" $id $rc $(echo "$e - $s" | bc) "$(grep -c VIOLATION $OUT/$id.out) viol, $(grep -c KNOWN-FINDING $OUT/$id.out) known"
 done
